@@ -94,3 +94,9 @@ Definition opt_eqb {A} (eqb : A -> A -> bool) (a b : option A) : bool :=
 Fixpoint bad_from (i : nat) (l : list bool) : list nat :=
   match l with [] => [] | b :: t => if b then bad_from (S i) t else i :: bad_from (S i) t end.
 Definition mismatches (l : list bool) : list nat := bad_from 0 l.
+
+(* insertion sort on ids: canonical form of a set of objects *)
+Fixpoint insert_sorted (x : nat) (l : list nat) : list nat :=
+  match l with [] => [x] | y :: t => if Nat.leb x y then x :: l else y :: insert_sorted x t end.
+Fixpoint sort (l : list nat) : list nat :=
+  match l with [] => [] | x :: t => insert_sorted x (sort t) end.
